@@ -38,7 +38,7 @@ var guardedFields = map[string]bool{
 	"structures.IncrementalRebalancer.lastSessionTime": true, "structures.IncrementalRebalancer.estimatedTimeETA": true,
 	"rebalancing.SmartRebalancer.started": true, "rebalancing.SmartRebalancer.ctx": true, "rebalancing.SmartRebalancer.cancel": true,
 	"rebalancing.SmartRebalancer.currentMode": true, "rebalancing.SmartRebalancer.lastDecision": true, "rebalancing.SmartRebalancer.lastModeChange": true,
-	"rebalancing.SmartRebalancer.stats": true,
+	"rebalancing.SmartRebalancer.stats":   true,
 	"rebalancing.WorkloadDetector.closed": true, "rebalancing.WorkloadDetector.events": true, "rebalancing.WorkloadDetector.head": true, "rebalancing.WorkloadDetector.size": true,
 }
 
